@@ -390,6 +390,20 @@ def reduceIntoOld (acc : Arrays) (incoming : Arrays) : Arrays :=
   incoming.foldl (fun acc (p : AggType × List (Nat × Int)) =>
     p.2.foldl (fun acc (tv : Nat × Int) => aggregateBySlot acc tv.1 tv.2) acc) acc
 
+/-- `groupingAggregator.Aggregate(it)` (aggregation/group_agg.go): the reducing side holds one field
+aggregator per selected field; every incoming field series is merged into the first aggregator
+with the same field name (`reduceInto`), and skipped when there is none. -/
+def groupReduce (acc : List (Nat × Arrays)) (incoming : List (Nat × Arrays)) : List (Nat × Arrays) :=
+  incoming.foldl (fun acc (p : Nat × Arrays) =>
+    match Map.lookup acc p.1 with
+    | some a => Map.upsert acc p.1 (reduceInto a p.2)
+    | none => acc) acc
+
+def fieldGet (fa : List (Nat × Arrays)) (f : Nat) (A : AggType) (t : Nat) : Option Int :=
+  match Map.lookup fa f with
+  | some a => arrGet a A t
+  | none => none
+
 /-- query slot range of a family: `Interval.CalcSlotRange(familyTime, timeRange)` in global
 coordinates (`none` when the family does not overlap the query). -/
 def familyTarget (q : Query) (fam : Nat) : Option (Nat × Nat) :=
